@@ -163,6 +163,14 @@ def step_oracles(term, props, ops, recs, fails):
                     continue
                 seen.add(key)
                 o_render(term, ob, fails, {'step': t, 'object': i})
+            # str() of an AnsiStr is its str payload: it must be the rendering of what the object reports NOW (text and
+            # settings), at every point of the history - also after one of its sources was modified in place
+            for i, ob in enumerate(post):
+                if ob[CLS] == 1 and ob[PAYLOAD] != ob[RENDERS][0]:
+                    fails.append({'oracle': 'C01.str', 'step': t,
+                                  'msg': 'str() of AnsiStr object %d is %r, but the object reports text %r with settings %s, whose rendering is %r'
+                                         % (i, ob[PAYLOAD], ob[BASE], [texts(c) for c in ob[CHARS]], ob[RENDERS][0])})
+                    break
         if not ok:
             continue
         if 'C04' in props and name in ('slice', 'clip', 'index', 'iter'):
